@@ -150,6 +150,19 @@ def nohost(o):
     return cimcanon.ncanon(o)
 
 
+UNCOPYABLE = [0]
+
+
+def dcopy(x):
+    """deep copy of a value of the universe; a value pywbem cannot copy (not
+    this property's subject) is used as it is and the call that takes it is
+    skipped by Pair.call"""
+    try:
+        return copy.deepcopy(x)
+    except Exception:  # noqa
+        return x
+
+
 def outcome(fn):
     try:
         v = fn()
@@ -174,7 +187,10 @@ class Pair:
         self.ctxA = self.ctxB = None
 
     def repo_dig(self, conn):
-        return h(tuple(sorted(cimcanon.repo_items_norm(conn))))
+        try:
+            return h(tuple(sorted(cimcanon.repo_items_norm(conn))))
+        except Exception as exc:  # noqa: a stored value that cannot be printed
+            return "undigestable:" + type(exc).__name__
 
     def set_default(self, ns):
         """the caller switches the connection's default namespace (on both
@@ -196,7 +212,12 @@ class Pair:
         path) when the caller keeps argument objects alive across calls."""
         self.facade.saw = None
         if own is None:
-            own = (copy.deepcopy((args, kwargs)), copy.deepcopy((args, kwargs)))
+            try:
+                own = (copy.deepcopy((args, kwargs)),
+                       copy.deepcopy((args, kwargs)))
+            except Exception:  # noqa: pywbem cannot copy an argument value
+                UNCOPYABLE[0] += 1
+                return None, None
         (aw, kww), (ad, kwd) = own
         ow, vw = outcome(lambda: getattr(self.wire, op)(*aw, **kww))
         od, vd = outcome(lambda: getattr(self.B, op)(*ad, **kwd))
@@ -476,13 +497,28 @@ def random_sequence(rng, pair, nops):
                 vw, vd = _pull(pair, vw.context, vd.context, m)
 
 
+# datetime values at the edges of the CIM datetime format: the largest
+# interval, intervals of more than 2^53 microseconds (where float arithmetic
+# on total seconds is no longer exact) with a .999999 fraction, the first and
+# the last timestamp
+EDGE_DATETIMES = [
+    CIMDateTime(timedelta(days=99999999, seconds=86399, microseconds=999999)),
+    CIMDateTime(timedelta(days=200000, seconds=5, microseconds=999999)),
+    CIMDateTime(timedelta(days=104250, microseconds=999999)),
+    CIMDateTime(timedelta(days=0, seconds=59, microseconds=999999)),
+    CIMDateTime("99991231235959.999999+000"),
+    CIMDateTime("00010101000000.000000+000"),
+]
+
 DOALL_VALUES = {
     "C": [Char16("x"), Char16("\u00e4")],
     "CA": [[Char16("a"), Char16("b")], [Char16("z")]],
     "D": [CIMDateTime("20200101120000.000000+060"),
-          CIMDateTime("00000003010203.000004:000"), timedelta(seconds=90)],
+          CIMDateTime("00000003010203.000004:000"), timedelta(seconds=90)] +
+    EDGE_DATETIMES,
     "DA": [[CIMDateTime("20200101120000.000000+000"),
-            CIMDateTime("00000000000001.000000:000")]],
+            CIMDateTime("00000000000001.000000:000")],
+           EDGE_DATETIMES[:3], EDGE_DATETIMES[3:]],
     "R4": [Real32(1.5), Real32(-0.25)],
     "R8": [Real64(-2.25), Real64(1e100)],
     "S8": [Sint64(-2 ** 63), Sint64(7)],
@@ -516,7 +552,7 @@ def doall_step(rng, pair):
         names.append(rng.choice(["EI", "EO"]))
     plist, kw, wp = [], {}, {}
     for n in names:
-        v = copy.deepcopy(rng.choice(DOALL_VALUES[n]))
+        v = dcopy(rng.choice(DOALL_VALUES[n]))
         style = rng.choice(["kw", "tuple", "cimparam"])
         if style == "cimparam" and n not in ("EI", "EO") and \
                 not isinstance(v, timedelta):
@@ -634,7 +670,7 @@ def rich_instance_step(rng, pair, step):
              CIMProperty("u8a", arr, type="uint8", is_array=True),
              CIMProperty("d", rng.choice([
                  None, CIMDateTime("20200101120000.000000+060"),
-                 CIMDateTime("00000003010203.000004:000")]),
+                 CIMDateTime("00000003010203.000004:000")] + EDGE_DATETIMES),
                  type="datetime"),
              CIMProperty("b", rng.choice([None, True, False]),
                          type="boolean"),
@@ -756,19 +792,19 @@ def method_history(rng, dflt, hist):
             continue
         sc, ar, nsc, nar = MH_VALUES[st["v"]["id"]]
         arr = ar is not None and rng.random() < 0.4
-        v, n = (copy.deepcopy(ar), nar) if arr else (copy.deepcopy(sc), nsc)
+        v, n = (dcopy(ar), nar) if arr else (dcopy(sc), nsc)
         if st["style"] == "cimparam":
             arg = CIMParameter(n, mtype(v), value=v, is_array=arr)
-            calls = [(("DoAll", ow_, [copy.deepcopy(arg)]), {}),
-                     (("DoAll", od_, [copy.deepcopy(arg)]), {})]
+            calls = [(("DoAll", ow_, [dcopy(arg)]), {}),
+                     (("DoAll", od_, [dcopy(arg)]), {})]
         elif st["style"] == "tuple":
             arg = v
-            calls = [(("DoAll", ow_, [(n, copy.deepcopy(v))]), {}),
-                     (("DoAll", od_, [(n, copy.deepcopy(v))]), {})]
+            calls = [(("DoAll", ow_, [(n, dcopy(v))]), {}),
+                     (("DoAll", od_, [(n, dcopy(v))]), {})]
         else:
             arg = v
-            calls = [(("DoAll", ow_), {n: copy.deepcopy(v)}),
-                     (("DoAll", od_), {n: copy.deepcopy(v)})]
+            calls = [(("DoAll", ow_), {n: dcopy(v)}),
+                     (("DoAll", od_), {n: dcopy(v)})]
         pair.call("InvokeMethod", None, None, nsarg, {n: arg},
                   label="InvokeMethod(DoAll, <kept %s>, %s=%r as %s)" % (
                       pristine, n, v, st["style"]),
@@ -879,6 +915,8 @@ def run(ctx):
     for _, d0, hist in hists:
         pairs.append(method_history(ctx.rng, d0, list(hist)))
     ctx.extra["tlc_method_histories_replayed"] = len(hists)
+    ctx.extra["calls_skipped_because_pywbem_could_not_copy_an_argument"] = \
+        UNCOPYABLE[0]
     nseq = 40 if quick else 350
     for i in range(nseq):
         p = Pair(ctx.rng.choice([NS1, NS1, NS2, "root/other"]))
